@@ -1360,6 +1360,175 @@ def tokens_section(tier, seed, limits=False):
 
 
 # ---------------------------------------------------------------------------------------------
+# everything at once: built-ins, subclass instances, call-style objects, stdlib types and comments nested in each other, under all six
+# settings at once (the other sections vary one dimension and pin the rest)
+
+def mix_value(rng, depth=0):
+    import collections
+    import datetime
+    import pathlib
+    import types
+    import uuid
+    import subclasses as S
+    import sec_stdlib
+
+    def plain_leaf():
+        return rng.choice([0, 1, -7, 10 ** 12, 2.5, -0.0, float('inf'), True, None, '', 'a', 'two words', "it's", 'x' * 30, 'word ' * 12, b'', b'by tes', 'é中'])
+
+    def leaf():
+        r = rng.random()
+        if r < 0.6:
+            return plain_leaf()
+        if r < 0.8:
+            return rng.choice([datetime.timedelta(days=2, seconds=5), datetime.datetime(2020, 1, 2, 3, 4), datetime.date(2020, 2, 29), datetime.time(0, 0, 5),
+                               uuid.UUID(int=9), sec_stdlib.Color.RED, pathlib.PurePosixPath('/a/b'), datetime.timezone.utc, datetime.datetime(2020, 11, 1, fold=1)])
+        base, val = rng.choice([(int, 5), (str, 'sub str'), (float, 1.5), (bytes, b'sb'), (str, 'long ' * 10)])
+        return S.make(rng, base, val)
+
+    if depth >= 3 or rng.random() < 0.3:
+        v = leaf()
+    else:
+        r = rng.random()
+        n = rng.choice([0, 1, 2, 3])
+        if r < 0.2:
+            v = [mix_value(rng, depth + 1) for _ in range(n)]
+        elif r < 0.3:
+            v = tuple(mix_value(rng, depth + 1) for _ in range(n))
+        elif r < 0.45:
+            v = {}
+            for _ in range(n):
+                k = rng.choice([plain_leaf(), (1, 'k'), datetime.date(2020, 1, 1)])
+                try:
+                    v[k] = mix_value(rng, depth + 1)
+                except TypeError:
+                    pass
+        elif r < 0.52:
+            v = rng.choice([set, frozenset])(x for x in (plain_leaf() for _ in range(n)) if x == x)
+        elif r < 0.62:
+            base = rng.choice([list, tuple, dict])
+            payload = {'k%d' % i: plain_leaf() for i in range(n)} if base is dict else base(plain_leaf() for _ in range(n))
+            v = S.make(rng, base, payload)
+        elif r < 0.8:
+            v = S.CallObj(rng.choice([S.Ctor, S.some_function]), tuple(mix_value(rng, depth + 1) for _ in range(rng.choice([0, 1, 2]))),
+                          [('kw%d' % i, mix_value(rng, depth + 1)) for i in range(rng.choice([0, 0, 1, 2]))])
+        else:
+            kind = rng.randrange(6)
+            items = [mix_value(rng, depth + 1) for _ in range(n)]
+            if kind == 0:
+                v = collections.OrderedDict(('k%d' % i, x) for i, x in enumerate(items))
+            elif kind == 1:
+                v = collections.defaultdict(list, {'k%d' % i: x for i, x in enumerate(items)})
+            elif kind == 2:
+                v = collections.deque(items, maxlen=rng.choice([None, 5]))
+            elif kind == 3:
+                v = collections.ChainMap({'a': items[0]} if items else {}, {'b': 1})
+            elif kind == 4:
+                v = types.SimpleNamespace(**{'f%d' % i: x for i, x in enumerate(items)})
+            else:
+                v = sec_stdlib.Point(items[0] if items else 1, 2)
+    if rng.random() < 0.12:
+        v = pp.comment(v, rng.choice(COMMENT_TEXTS))
+    elif rng.random() < 0.05:
+        v = pp.trailing_comment(v, rng.choice(COMMENT_TEXTS))
+    return v
+
+
+def mix_chunk(cases):
+    import sec_stdlib
+    drv = _driver()
+    mism, fails = [], []
+    n = nt = 0
+    for (value, sets) in cases:
+        try:
+            sx = sec_stdlib.sx(value)
+        except Exception:
+            continue
+        pieces, texts, groups = [], [], {}
+        warned = False
+        for st in sets:
+            p, text, kinds = impl_piece(value, st)
+            pieces.append(p)
+            texts.append(text)
+            n += 1
+            if 'printer-failed' in kinds or 'raised' in kinds:
+                warned = (st, kinds)
+        if len(set(texts)) > 1:
+            nt += 1
+        g = drv.ask('(pformat %s %s)' % (sx, ' '.join(settings_sx(*st) for st in sets)))
+        if g != '(ok ' + ' '.join(pieces) + ')':
+            for st, p in zip(sets, pieces):
+                g1 = drv.ask('(pformat %s %s)' % (sx, settings_sx(*st)))
+                if g1 != '(ok ' + p + ')':
+                    mism.append({'value': repr(value)[:300], 'value_sx': sx[:2000], 'settings': st, 'impl': p[:1500], 'model': g1[:1500]})
+                    break
+        if len(fails) >= 3:
+            continue
+        bad = None
+        if warned:
+            bad = {'kind': 'bundled-printer-fails', 'settings': warned[0], 'why': 'pformat raised or a bundled printer fell back to repr with a failure warning: %s' % (warned[1],)}
+        else:
+            for st, text in zip(sets, texts):
+                # the same syntax tree at every width / ribbon / indent (per depth / max_seq_len / sort setting), indentation in multiples of indent
+                try:
+                    a = ast_of(text)
+                except SyntaxError:
+                    a = None       # reprs of unregistered objects etc. are not expressions: nothing to compare
+                key = st[3:]
+                if a is not None:
+                    prev = groups.setdefault(key, (a, st, text))
+                    if prev[0] != a:
+                        bad = {'kind': 'syntax-tree-depends-on-layout', 'settings': st, 'other_settings': prev[1], 'text': text[:400], 'other_text': prev[2][:400]}
+                        break
+                for line in text.split('\n')[1:]:
+                    lead = len(line) - len(line.lstrip(' '))
+                    if line.strip() and lead % st[0] != 0 and a is not None:
+                        bad = {'kind': 'indent-not-multiple', 'settings': st, 'line': line[:100], 'text': text[:400]}
+                        break
+                if bad:
+                    break
+        if bad:
+            bad['value'] = repr(value)[:300]
+            fails.append(bad)
+    return n, nt, mism, fails
+
+
+def mix_section(tier, seed):
+    rng = random.Random(seed * 71 + 31)
+    cases = []
+    for _ in range(500 if tier == 'quick' else 6000):
+        v = mix_value(rng)
+        plain = V.strip_comments(v)
+        limits = [(None, 1000), (None, None), (rng.choice([0, 1, 2, 3]), 1000), (None, rng.choice([1, 2, 3])), (rng.choice([1, 2, 3]), rng.choice([1, 2, 5]))]
+        srt = 1 if rng.random() < 0.4 and sortable(plain) and not comment_inside_tuple_key(v) else 0
+        sets = []
+        for (d, m) in rng.sample(limits, 2):
+            for _ in range(3):
+                w = rng.choice([1, 8, 13, 20, 30, 40, 60, 79, 120])
+                r = rng.choice([w, max(1, w // 2), w + 10])
+                if V.ribbon_ok(w, r):
+                    sets.append((rng.choice([1, 2, 4, 8]), w, r, d, m, srt))
+        if sets:
+            cases.append((v, sets))
+    chunks = [cases[i:i + 25] for i in range(0, len(cases), 25)]
+    tot = nt = 0
+    mism, fails = [], []
+    with mp.Pool(min(NCPU, len(chunks))) as pool:
+        for n, t, mm, ff in pool.imap_unordered(mix_chunk, chunks):
+            tot += n
+            nt += t
+            mism.extend(mm)
+            fails.extend(ff)
+    stats = {'evaluations': tot, 'distinct_nontrivial': nt, 'values': len(cases), 'mismatches': len(mism),
+             'samples': [{'value': repr(cases[0][0])[:200]}, {'value': repr(cases[1][0])[:200]}],
+             'rule': 'values mixing everything the model knows - built-ins, instances of the generated subclasses, pretty_call objects with positional and keyword arguments, '
+                     'stdlib types (datetime family, UUID, Enum, paths, OrderedDict, defaultdict, deque, ChainMap, SimpleNamespace, namedtuple), comments and trailing comments - '
+                     'nested in each other up to depth 3, each printed under 6 settings drawn from all six parameters at once (indent 1/2/4/8, widths 1-120, ribbons, depth None/0-3, '
+                     'max_seq_len None/1000/1-5, sort flag): SDoc stream and text compared with the model; oracles on the implementation: no printer fails, the same syntax tree at '
+                     'every layout of one limit setting, continuation lines indented in multiples of indent; non-trivial = values whose text differs between settings'}
+    return stats, mism, fails
+
+
+# ---------------------------------------------------------------------------------------------
 # the reader (Spec/Reader.lean) against CPython's own parser, on subclass instances and call-style objects (C08 / C17 / C01)
 
 def rval_of_ast(text):
